@@ -1,5 +1,5 @@
 (* C10 -- A subscription delivers exactly the requested range. *)
-From LB Require Import Base.Prelude Log.Model Log.Compact Log.Proofs Log.Refine Log.CompactProofs Log.CommittedProofs Api.Range Api.RangeProofs.
+From LB Require Import Base.Prelude Log.Model Log.Compact Log.Proofs Log.Refine Log.CompactProofs Log.CommittedProofs Api.Range Api.RangeProofs Log.HwWaitRo Log.HwWaitRoProofs.
 Open Scope Z_scope.
 
 (* Forward: for every start and stop position, on any well-formed log (dense, compacted with
@@ -49,3 +49,13 @@ Example C10_example :
   subscribe l SEarliest (TTimestamp 104) false = ([0; 2], EStop) /\
   subscribe l (SOffset 5) (TOffset 3) false = ([], EInvalid).
 Proof. vm_compute. repeat split. Qed.
+
+(* A forward subscription on a read-only partition ends with "end of read-only partition" only when
+   the reader has delivered everything the log holds: the step that ends a reader (Log.HwWaitRo, the
+   decision of commitLog.waitForHW, compared with the code label by label in C03's check) is taken on
+   a read-only log whose HW is at its newest offset, by a reader whose next offset is just above it. *)
+Theorem C10_readonly_end_only_at_the_log_end : forall s lb j r r' e, winv s -> nth_error (w_readers s) j = Some r -> n_ended r = None ->
+  nth_error (w_readers (wstep wcode s lb)) j = Some r' -> n_ended r' = Some e ->
+  e = w_newest s /\ w_ro s = true /\ w_hw s = w_newest s /\ n_next r' = w_newest s + 1.
+Proof. exact end_step_sound. Qed.
+Print Assumptions C10_readonly_end_only_at_the_log_end.
